@@ -4,7 +4,7 @@
    C20_no_question_fails_not_panics + C13_no_panic give C20_server_never_panics. *)
 From DnsV Require Import Base.Bytes Model.Store Model.LookupV1 Model.LookupV2 Model.Serve.
 From DnsV Require Model.Cache Proofs.Cache Model.Chain Proofs.Chain.
-From DnsV Require Import Spec.Answer Spec.KeysV2 Proofs.ZoneCut Proofs.NoPanic Proofs.NoPanicV2 Proofs.FileLevel.
+From DnsV Require Import Spec.Answer Spec.Rows Spec.KeysV2 Proofs.ZoneCut Proofs.NoPanic Proofs.NoPanicV2 Proofs.FileLevel.
 From Coq Require Import Lia.
 From DnsV Require Import Model.Compose Proofs.Compose.
 Open Scope N_scope.
@@ -25,22 +25,16 @@ Proof.
 Qed.
 
 (* ------------------------------------------------------------------ the state a history leaves behind *)
-Definition wire_asked (a : bytes) : Prop := wire_name a = true.
+Definition wire_asked (a : bytes) (_ : N) : Prop := wire_name a = true.
 
-(* requests as they come off the wire: 16-bit type and class, a wire-valid name *)
+(* requests as they come off the wire: 16-bit type and class, a wire-valid name (any max answer) *)
 Definition hist_wire_names (h : list (Cache.event gen)) : Prop := hist_ok wire_asked h.
 
-Lemma reachable_inv : forall max cfg h g0, hist_wire_names h ->
-  Inv max wire_asked (fst (hfinal max cfg (g0, []) h)) (snd (hfinal max cfg (g0, []) h)).
+Lemma reachable_inv : forall Pq cfg h g0, hist_ok Pq h ->
+  Inv Pq (fst (hfinal cfg (g0, []) h)) (snd (hfinal cfg (g0, []) h)).
 Proof.
-  intros max cfg h g0 H.
-  exact (proj1 (history_written max wire_asked cfg h g0 [] (Inv_nil max wire_asked g0) H)).
-Qed.
-
-Lemma Inv_weaken : forall max (P Q : bytes -> Prop) g c, (forall a, P a -> Q a) -> Inv max P g c -> Inv max Q g c.
-Proof.
-  intros max P Q g c PQ H s e I. destruct (H s e I) as (k & a & A1 & A2 & A3 & A4 & A5).
-  exists k, a. repeat split; auto; apply A2.
+  intros Pq cfg h g0 H.
+  exact (proj1 (history_written Pq cfg h g0 [] (Inv_nil Pq g0) H)).
 Qed.
 
 (* ------------------------------------------------------------------ C20_server_is_spec *)
@@ -51,33 +45,42 @@ Variable optlen : Chain.rr -> N.
 Variable br : bridge.
 Variable ccfg : Cache.cconfig.
 
-Theorem server_is_spec_state : forall Pa g c now cfg e r q0 rest w,
-  Inv (Chain.max_answer cfg) Pa g c ->
+Theorem server_is_spec_state : forall Pq g c now cfg e r q0 rest w,
+  Inv Pq g c ->
   Chain.accepted cfg r = true -> Chain.mq r = q0 :: rest ->
   Chain.any_refused cfg q0 = false -> Chain.whoami_matched cfg q0 = false ->
-  br_wire br (Chain.qname q0) = Some w -> Pa w ->
+  br_wire br (Chain.qname q0) = Some w -> Pq w (Chain.max_answer cfg) ->
   Chain.qtype q0 < 65536 -> Chain.qclass q0 < 65536 ->
   let mx := Chain.max_answer cfg in
   let rq := Cache.mkReq (br_from br e r) w (Chain.qtype q0) (Chain.qclass q0) (msg_extra r) in
   let f := snd (fst (handle mx ccfg g c now rq)) in
   let o := snd (handle mx ccfg g c now rq) in
   whole_server ulen base rlen optlen br ccfg g c now cfg e r = br_render br e r (f (br_ecs br e r g)) /\
-  entry_is_spec mx (g, rq, f, o).
+  forall recs ecs y n,
+    let L := loc_of_num (locate g rq) in
+    gen_declares g L recs ->
+    (req_edns rq = None \/ req_edns rq = Some 0) ->
+    wf_name n -> nlen (pack n) <= 255 -> lower_bytes w = pack n ->
+    f ecs = OReply y ->
+    located g rq = true /\
+    (exists a mx', Pq a mx' /\ refines_variant L recs n (query_of rq) ecs a mx' y) /\
+    (o <> Cache.OHit -> response_refines L recs n (query_of rq) ecs mx y).
 Proof.
-  intros Pa g c now cfg e r q0 rest w HI HA HQ HY HW HB HP HT HC mx rq f o.
+  intros Pq g c now cfg e r q0 rest w HI HA HQ HY HW HB HP HT HC mx rq f o.
   split.
   - unfold whole_server.
     rewrite (Chain.chain_transparent ulen base rlen optlen _ cfg e r q0 rest HA HQ HY HW).
     unfold db_serve, view, first_question. rewrite HQ, HB. fold rq. fold mx.
     unfold f. destruct (handle mx ccfg g c now rq) as ((c' & f') & o'). reflexivity.
-  - assert (RO : req_ok Pa rq) by (unfold req_ok, rq; cbn; auto).
-    destruct (handle_step mx Pa ccfg g c now rq HI RO) as (_ & W). fold f o in W.
-    cbn. intros recs ecs y n D He Hn Hl Hq Hf.
-    exact (written_refines mx Pa g rq f o recs W (edns_ok_badvers rq He) (declares_serves g _ recs D) ecs y n Hn Hl Hq Hf).
+  - assert (RO : req_ok Pq mx rq) by (unfold req_ok, rq; cbn; auto).
+    destruct (handle_step Pq mx ccfg g c now rq HI RO) as (_ & W). fold f o in W.
+    intros recs ecs y n L D He Hn Hl Hq Hf.
+    exact (written_refines Pq mx g rq f o recs W (edns_ok_badvers rq He) (declares_serves g _ recs D) ecs y n Hn Hl Hq Hf).
 Qed.
 
-(* for the state after any sequential history (started with an empty cache, all queries on listeners with
-   this max answer) *)
+(* for the state after ANY sequential history (started with an empty cache; the earlier queries may have
+   arrived on listeners with other max answers: a hit then answers for the max answer of the query the
+   entry was computed for) *)
 Theorem server_is_spec : forall h g0 now cfg e r q0 rest w,
   hist_wire h ->
   Chain.accepted cfg r = true -> Chain.mq r = q0 :: rest ->
@@ -85,18 +88,63 @@ Theorem server_is_spec : forall h g0 now cfg e r q0 rest w,
   br_wire br (Chain.qname q0) = Some w ->
   Chain.qtype q0 < 65536 -> Chain.qclass q0 < 65536 ->
   let mx := Chain.max_answer cfg in
-  let g := fst (hfinal mx ccfg (g0, []) h) in
-  let c := snd (hfinal mx ccfg (g0, []) h) in
+  let g := fst (hfinal ccfg (g0, []) h) in
+  let c := snd (hfinal ccfg (g0, []) h) in
   let rq := Cache.mkReq (br_from br e r) w (Chain.qtype q0) (Chain.qclass q0) (msg_extra r) in
   let f := snd (fst (handle mx ccfg g c now rq)) in
   let o := snd (handle mx ccfg g c now rq) in
   whole_server ulen base rlen optlen br ccfg g c now cfg e r = br_render br e r (f (br_ecs br e r g)) /\
-  entry_is_spec mx (g, rq, f, o).
+  forall recs ecs y n,
+    let L := loc_of_num (locate g rq) in
+    gen_declares g L recs ->
+    (req_edns rq = None \/ req_edns rq = Some 0) ->
+    wf_name n -> nlen (pack n) <= 255 -> lower_bytes w = pack n ->
+    f ecs = OReply y ->
+    located g rq = true /\
+    (exists a mx', refines_variant L recs n (query_of rq) ecs a mx' y) /\
+    (o <> Cache.OHit -> response_refines L recs n (query_of rq) ecs mx y).
 Proof.
-  intros h g0 now cfg e r q0 rest w HH HA HQ HY HW HB HT HC mx g c.
-  assert (HI : Inv mx (fun _ => True) g c).
-  { exact (proj1 (history_written mx (fun _ => True) ccfg h g0 [] (Inv_nil mx _ g0) (hist_wire_ok h HH))). }
-  exact (server_is_spec_state (fun _ => True) g c now cfg e r q0 rest w HI HA HQ HY HW HB I HT HC).
+  intros h g0 now cfg e r q0 rest w HH HA HQ HY HW HB HT HC mx g c rq f o.
+  pose proof (reachable_inv (fun _ _ => True) ccfg h g0 (hist_wire_ok h HH)) as HI.
+  destruct (server_is_spec_state (fun _ _ => True) g c now cfg e r q0 rest w HI HA HQ HY HW HB I HT HC) as (A & B).
+  split; [exact A|].
+  intros recs ecs y n L D He Hn Hl Hq Hf.
+  destruct (B recs ecs y n D He Hn Hl Hq Hf) as (B1 & (a & mx' & _ & B2) & B3).
+  split; [exact B1|]. split; [exists a, mx'; exact B2|exact B3].
+Qed.
+
+(* when all earlier queries arrived with this listener's max answer (one listener, or listeners configured
+   alike): the listener's own max answer throughout *)
+Theorem server_is_spec_same_max : forall h g0 now cfg e r q0 rest w,
+  hist_wire h -> hist_max (Chain.max_answer cfg) h ->
+  Chain.accepted cfg r = true -> Chain.mq r = q0 :: rest ->
+  Chain.any_refused cfg q0 = false -> Chain.whoami_matched cfg q0 = false ->
+  br_wire br (Chain.qname q0) = Some w ->
+  Chain.qtype q0 < 65536 -> Chain.qclass q0 < 65536 ->
+  let mx := Chain.max_answer cfg in
+  let g := fst (hfinal ccfg (g0, []) h) in
+  let c := snd (hfinal ccfg (g0, []) h) in
+  let rq := Cache.mkReq (br_from br e r) w (Chain.qtype q0) (Chain.qclass q0) (msg_extra r) in
+  let f := snd (fst (handle mx ccfg g c now rq)) in
+  let o := snd (handle mx ccfg g c now rq) in
+  whole_server ulen base rlen optlen br ccfg g c now cfg e r = br_render br e r (f (br_ecs br e r g)) /\
+  forall recs ecs y n,
+    let L := loc_of_num (locate g rq) in
+    gen_declares g L recs ->
+    (req_edns rq = None \/ req_edns rq = Some 0) ->
+    wf_name n -> nlen (pack n) <= 255 -> lower_bytes w = pack n ->
+    f ecs = OReply y ->
+    located g rq = true /\
+    refines_mod_case L recs n (query_of rq) ecs mx y /\
+    (o <> Cache.OHit -> response_refines L recs n (query_of rq) ecs mx y).
+Proof.
+  intros h g0 now cfg e r q0 rest w HH HM HA HQ HY HW HB HT HC mx g c rq f o.
+  pose proof (reachable_inv (fun _ m => m = mx) ccfg h g0 (hist_wire_max_ok mx h HH HM)) as HI.
+  destruct (server_is_spec_state (fun _ m => m = mx) g c now cfg e r q0 rest w HI HA HQ HY HW HB eq_refl HT HC) as (A & B).
+  split; [exact A|].
+  intros recs ecs y n L D He Hn Hl Hq Hf.
+  destruct (B recs ecs y n D He Hn Hl Hq Hf) as (B1 & (a & mx' & Em & B2) & B3).
+  subst mx'. split; [exact B1|]. split; [exists a; exact B2|exact B3].
 Qed.
 
 (* ------------------------------------------------------------------ C20_server_never_panics *)
@@ -112,7 +160,7 @@ Proof. intros o q ecs H. destruct o; cbn in H; auto. destruct H; discriminate. Q
 
 Theorem server_never_panics_state : forall g c now cfg e r,
   wire_ok -> render_ok ->
-  Inv (Chain.max_answer cfg) wire_asked g c ->
+  Inv wire_asked g c ->
   (g_backend g = RDB2 -> wf_store_v2 (g_store g) = true) ->
   (forall q0 rest, Chain.mq r = q0 :: rest -> Chain.qtype q0 < 65536 /\ Chain.qclass q0 < 65536) ->
   whole_server ulen base rlen optlen br ccfg g c now cfg e r <> Chain.Panic.
@@ -124,18 +172,18 @@ Proof.
   set (mx := Chain.max_answer cfg) in *.
   destruct (br_wire br (Chain.qname q0)) as [w|] eqn:HB.
   - set (rq := Cache.mkReq (br_from br e r) w (Chain.qtype q0) (Chain.qclass q0) (msg_extra r)) in *.
-    assert (RQ : req_ok wire_asked rq) by (unfold req_ok, rq, wire_asked; cbn; repeat split; auto; exact (WO _ _ HB)).
-    destruct (handle_step mx wire_asked ccfg g c now rq HI RQ) as (_ & W).
+    assert (RQ : req_ok wire_asked mx rq) by (unfold req_ok, rq, wire_asked; cbn; repeat split; auto; exact (WO _ _ HB)).
+    destruct (handle_step wire_asked mx ccfg g c now rq HI RQ) as (_ & W).
     destruct (handle mx ccfg g c now rq) as ((c' & f) & o). cbn [fst snd] in W.
     apply RO in HS.
-    destruct W as [(_ & E)|[(_ & _ & E)|(B & Lc & a & LA & PA & _ & E)]]; subst f.
+    destruct W as [(_ & E)|[(_ & _ & E)|(B & Lc & a & mx' & LA & PA & _ & E)]]; subst f.
     + destruct HS; discriminate.
     + destruct HS; discriminate.
     + unfold finish in HS. apply patch_no_panic in HS. unfold core in HS.
       destruct (serve_no_panic (g_backend g) (g_store g)
                   (canon a (Cache.k_qtype (Cache.key_of gen lower_bytes locate g rq))
                            (Cache.k_qclass (Cache.key_of gen lower_bytes locate g rq)))
-                  (LocOk (loc_of_num (Cache.k_loc (Cache.key_of gen lower_bytes locate g rq)))) None mx) as (N1 & N2).
+                  (LocOk (loc_of_num (Cache.k_loc (Cache.key_of gen lower_bytes locate g rq)))) None mx') as (N1 & N2).
       * intros Hb. split; [exact (HG Hb)|reflexivity].
       * exact PA.
       * destruct HS; contradiction.
@@ -146,14 +194,13 @@ Qed.
 
 Theorem server_never_panics : forall h g0 now cfg e r,
   wire_ok -> render_ok -> hist_wire_names h ->
-  let mx := Chain.max_answer cfg in
-  let g := fst (hfinal mx ccfg (g0, []) h) in
-  let c := snd (hfinal mx ccfg (g0, []) h) in
+  let g := fst (hfinal ccfg (g0, []) h) in
+  let c := snd (hfinal ccfg (g0, []) h) in
   (g_backend g = RDB2 -> wf_store_v2 (g_store g) = true) ->
   (forall q0 rest, Chain.mq r = q0 :: rest -> Chain.qtype q0 < 65536 /\ Chain.qclass q0 < 65536) ->
   whole_server ulen base rlen optlen br ccfg g c now cfg e r <> Chain.Panic.
 Proof.
-  intros h g0 now cfg e r WO RO HH mx g c HG HQ.
-  exact (server_never_panics_state g c now cfg e r WO RO (reachable_inv mx ccfg h g0 HH) HG HQ).
+  intros h g0 now cfg e r WO RO HH g c HG HQ.
+  exact (server_never_panics_state g c now cfg e r WO RO (reachable_inv wire_asked ccfg h g0 HH) HG HQ).
 Qed.
 End Server.
